@@ -68,6 +68,10 @@ def run(tier):
     except Exception as e:
         pre_und.append('runner generator: %s' % e)
     units = [dict(vspec=os.path.join(common.VERIF, 'contracts', 'c18_bytecode.vspec'), extra_overlay=extra)] if extra else []
+    try:
+        units.append(dict(vspec=os.path.join(common.VERIF, 'contracts', 'c18_visitor.vspec'), extra_overlay=gen_c18.generate_visitor_overlay(common.repo_root())))
+    except Exception as e:
+        pre_und.append('visitor contract generator: %s' % e)
     assumptions = [
         'Register numbers fit in 32 bits (registers are indices handed out by add_register); beyond that the writer truncates `as u32` - stated as premise inst_regs_fit of the round-trip',
         'argument lists are shorter than 2^32',
@@ -86,8 +90,8 @@ def run(tier):
         dict(lemma='theorem_seq_roundtrip', statement='dec_seq(enc_seq(ws)) == Some(ws)'),
         dict(function='BytecodeWriter::resolve_forward_jumps', contract='every recorded 4-byte slot holds label - start; start < label or refused; all other bytes unchanged'),
     ]
-    not_decided = ['the visitor interface (read() -> BytecodeFullIteration::dispatch_instruction -> BytecodeVisitor callbacks, 110 arms) is NOT under contract: '
-                   'it is executed by the replay runner with a recording visitor generated from the trait/enum declarations (sampled, every callback compared with what was written)',
+    not_decided = ['the visitor interface: BytecodeFullIteration::dispatch_instruction (70 arms) IS under contract (unit c18_visitor: the callback of the variant is invoked with exactly the operands of the instruction, '
+                   'against a recording visitor generated from the trait/enum declarations); read() / Iterator::next around it are executed by the replay runner with the same recording visitor (sampled)',
                    'the package clause (Program <-> bytes through the derived bincode impls; refusal of truncated / trailing / corrupted files) is NOT under contract (derive macros and bincode are outside both verifiers): '
                    'it is EXECUTED by the runner c18pkg on programs the real front end emits (decode(encode(p)) == p, same bytes again, every proper prefix and a trailing byte refused, corrupted files decoded in a child process: never a crash): sampled',
                    'dora-compiler/src/wire.rs (hand-written BytecodeType encoding between compiler and runtime): decode(encode(t)) == t with nothing left over, executed on 20 000 generated types per run (sampled)',
